@@ -81,8 +81,12 @@ pub fn describe_fd(fd: i32) -> Value {
     if rc != 0 {
         return json!({"ok": true, "fd": fd, "stat_errno": crate::tree::errno()});
     }
-    json!({"ok": true, "fd": fd, "dev": st.st_dev, "ino": st.st_ino, "ft": crate::tree::kind_of(st.st_mode),
-           "mode": st.st_mode & 0o7777, "fl": fl, "cloexec": (fdfl & libc::FD_CLOEXEC) != 0, "nlink": st.st_nlink})
+    let mut sfs: libc::statfs = unsafe { std::mem::zeroed() };
+    let fstype = if unsafe { libc::fstatfs(fd, &mut sfs) } == 0 { sfs.f_type as i64 } else { -1 };
+    let mut stx: libc::statx = unsafe { std::mem::zeroed() };
+    let mnt = if unsafe { libc::statx(fd, b"\0".as_ptr() as *const c_char, libc::AT_EMPTY_PATH, 0x1000 /* STATX_MNT_ID */, &mut stx) } == 0 { stx.stx_mnt_id as i64 } else { -1 };
+    json!({"ok": true, "fd": fd, "dev": st.st_dev, "ino": st.st_ino, "ft": crate::tree::kind_of(st.st_mode), "rawdev": st.st_dev, "rawino": st.st_ino,
+           "mode": st.st_mode & 0o7777, "fl": fl, "cloexec": (fdfl & libc::FD_CLOEXEC) != 0, "nlink": st.st_nlink, "fstype": fstype, "mnt_id": mnt})
 }
 
 pub struct Ctx {
@@ -685,12 +689,13 @@ fn exec_call_inner(ctx: &mut Ctx, idx: usize, c: &Value, keep: &mut Option<Owned
             if fd < 0 {
                 return json!({"ok": false, "skip": format!("cannot obtain fd: errno {}", crate::tree::errno())});
             }
+            let hdesc = describe_fd(fd);
             let owned = unsafe { OwnedFd::from_raw_fd(fd) };
             let r = bracket!(ProcfsHandle::try_from_fd(owned));
             match r {
                 Ok(h) => {
                     ctx.procfs = Some(h);
-                    json!({"ok": true, "handle": "procfs", "fd": fd, "consumed_fd": fd})
+                    json!({"ok": true, "handle": "procfs", "fd": fd, "consumed_fd": fd, "hroot": hdesc})
                 }
                 Err(e) => {
                     let mut v = kind_json(&e);
@@ -750,6 +755,49 @@ fn exec_call_inner(ctx: &mut Ctx, idx: usize, c: &Value, keep: &mut Option<Owned
                 v["canary_ok"] = json!(canary_ok);
                 v
             }
+        }
+        (_, "proc_live_enum") => {
+            // classify the live entries of /proc, /proc/<pid>, /proc/<pid>/task/<tid> (+ fd/, ns/)
+            let pid = unsafe { libc::getpid() };
+            let mut out: Vec<Value> = Vec::new();
+            let bases: Vec<(&str, String)> = vec![("root", "/proc".to_string()), ("self", format!("/proc/{}", pid)), ("thread-self", format!("/proc/{}/task/{}", pid, pid))];
+            for (bname, bpath) in bases.iter() {
+                let mut names: Vec<String> = match std::fs::read_dir(bpath) {
+                    Ok(rd) => rd.filter_map(|e| e.ok()).map(|e| e.file_name().to_string_lossy().to_string()).collect(),
+                    Err(_) => Vec::new(),
+                };
+                names.sort();
+                if *bname == "root" {
+                    names.retain(|n| !n.chars().all(|c| c.is_ascii_digit()) || n == "1");
+                } else {
+                    for sub in ["fd/0", "fd/1", "fd/2", "ns/mnt", "ns/pid", "attr/current", "task"] {
+                        names.push(sub.to_string());
+                    }
+                }
+                for n in names {
+                    let full = format!("{}/{}", bpath, n);
+                    if let Some(st) = crate::tree::lstat(std::path::Path::new(&full)) {
+                        let mut kind = match st.st_mode & libc::S_IFMT {
+                            libc::S_IFDIR => "dir",
+                            libc::S_IFLNK => "sym",
+                            _ => "file",
+                        };
+                        if kind == "sym" {
+                            let body = std::fs::read_link(&full).map(|p| p.to_string_lossy().to_string()).unwrap_or_default();
+                            if body.starts_with('/') || body.contains(":[") || body.is_empty() {
+                                kind = "magic";
+                            } else {
+                                // ordinary procfs symlink: classify by what it points to
+                                let c = cs(&full);
+                                let mut t: libc::stat = unsafe { std::mem::zeroed() };
+                                kind = if unsafe { libc::stat(c.as_ptr(), &mut t) } == 0 && (t.st_mode & libc::S_IFMT) == libc::S_IFDIR { "symdir" } else { "symfile" };
+                            }
+                        }
+                        out.push(json!({"base": bname, "name": n, "kind": kind}));
+                    }
+                }
+            }
+            json!({"ok": true, "entries": out})
         }
         (_, "capi_arg") => crate::capi_cases::arg_case(ctx.root_raw, c),
         (_, "capi_copy") => crate::capi_cases::copy_case(ctx.root_raw, c),
